@@ -81,6 +81,11 @@ package alloctxn
 
 //@ spec (*AllocTxn).PreCommit(atxn)
 //@   props C01 C11
+// R3 (C01, C05, C10): the four lists go to their own bitmaps, allocations first, with the right polarity
+//@   callsite alloctxn.(*AllocTxn).WriteBits@1 requires [R3-alloc-inums] arg0 == atxn && arg1 == atxn.allocInums && arg2 == atxn.Super.BitmapInodeStart() && arg3 @C01 @C05
+//@   callsite alloctxn.(*AllocTxn).WriteBits@2 requires [R3-alloc-bnums] arg0 == atxn && arg1 == atxn.allocBnums && arg2 == atxn.Super.BitmapBlockStart() && arg3 @C01 @C05
+//@   callsite alloctxn.(*AllocTxn).WriteBits@3 requires [R3-free-inums] arg0 == atxn && arg1 == atxn.freeInums && arg2 == atxn.Super.BitmapInodeStart() && !arg3 @C01 @C05
+//@   callsite alloctxn.(*AllocTxn).WriteBits@4 requires [R3-free-bnums] arg0 == atxn && arg1 == atxn.freeBnums && arg2 == atxn.Super.BitmapBlockStart() && !arg3 @C01 @C05
 //@   requires atxnInv(atxn) && listsValid(atxn) && lastst == 0
 //@   requires [R3-once] cphase == 0 @C01
 //@   modifies cphase
